@@ -23,6 +23,12 @@
 // libstdc++.so; instantiate the real template bodies so that they are part of the encoding.
 template char *std::string::_M_create(unsigned long &, unsigned long);
 template void std::string::_M_mutate(unsigned long, unsigned long, const char *, unsigned long);
+template void std::string::_M_assign(const std::string &);
+template std::string &std::string::_M_replace(unsigned long, unsigned long, const char *, unsigned long);
+template std::string &std::string::_M_replace_aux(unsigned long, unsigned long, unsigned long, char);
+template std::string &std::string::_M_append(const char *, unsigned long);
+template void std::string::_M_erase(unsigned long, unsigned long);
+template void std::string::reserve(unsigned long);
 
 #ifndef TAP_CHIPS
 #define TAP_CHIPS 2
@@ -125,6 +131,13 @@ void VGMFileDumper::writeLoopStart() {}
 void VGMFileDumper::writeLoopEnd() {}
 void VGMFileDumper::loopStartHook(void *self) { (void)self; }
 void VGMFileDumper::loopEndHook(void *self) { (void)self; }
+
+// counter incremented by every function body that an obligation replaces by a no-op stub
+// (ir2c option stub_funcs, e.g. OPNMIDIplay::setErrorString whose std::string assignment is costly)
+extern "C" { extern unsigned verif_stub_hits; }
+#if !defined(VERIF_IR)
+unsigned verif_stub_hits;
+#endif
 
 static inline OPNMIDIplay *player_of(OPN2_MIDIPlayer *dev)
 {
